@@ -364,8 +364,20 @@ fn handler_level(r: &mut Report, work: &str, seed: u64, slow: bool) {
     // replacing an EXPIRED entry (same length, shorter, longer; also on another host) makes the new bytes
     // retrievable at once: the stored item's age counts from this store, not from the one it replaces
     cache.set("/y", 1, vec![9; 7], MimeType::from_extension("txt"));
+    // a second cache whose expired content plus the next item exceeds the limit (size accounting of expired entries)
+    let mut cache2 = mk_cache(100, 1);
+    cache2.set("/p", 0, vec![1; 60], MimeType::from_extension("txt"));
+    cache2.set("/p2", 1, vec![2; 30], MimeType::from_extension("txt"));
     std::thread::sleep(Duration::from_millis(2150));
     r.count("real_sleeps", 1);
+    for (key, host, size) in [("/q", 0usize, 60usize), ("/r", 1, 60), ("/s", 0, 100), ("/t", 1, 1)] {
+        r.eval();
+        cache2.set(key, host, vec![7; size], MimeType::from_extension("txt"));
+        match cache2.get(key, host) {
+            Some(item) if item.data.len() == size => r.count("stores_after_expiry_retrievable", 1),
+            _ => r.violation("C16/not-retrievable-after-set", format!("an item of {} bytes (limit 100) stored after all earlier entries had expired is not retrievable right after set ({} on host {})", size, key, host), J::Null, replay.clone()),
+        }
+    }
     for (key, host, new) in [("/x", 0usize, vec![4u8, 5, 6]), ("/y", 1usize, vec![7u8; 7]), ("/x", 0, vec![8u8; 2]), ("/y", 1, vec![6u8; 40])] {
         r.eval();
         cache.set(key, host, new.clone(), MimeType::from_extension("txt"));
@@ -440,7 +452,12 @@ pub fn main(args: &Args) {
                 for time in times {
                     r.eval();
                     r.count("exhaustive_sequences", 1);
-                    if let Some((sig, what)) = run_seq(&seq, limit, time, &mut stats) {
+                    let res = hvcommon::util::catch_panic(|| run_seq(&seq, limit, time, &mut stats));
+                    let res = match res {
+                        Ok(x) => x,
+                        Err((msg, loc)) => Some((format!("C16/panic@{}", loc), format!("cache operation panicked at {}: {}", loc, msg))),
+                    };
+                    if let Some((sig, what)) = res {
                         r.violation(&sig, what, seq_json(&seq, limit, time), vec!["c16".into(), "--ops".into(), encode_ops(&seq), "--limit".into(), limit.to_string(), "--time".into(), time.to_string()]);
                     }
                 }
@@ -455,6 +472,7 @@ pub fn main(args: &Args) {
         }
         // (b) random long sequences over 32 keys (2 hosts), sizes 0..limit
         let mut rng = Rng::derive(seed, 0x1600 + shard as u64);
+        let phase_b = hvcommon::util::catch_panic(|| {
         for _ in 0..(if thorough { 4000 } else { 300 }) / nsh + 1 {
             let limit = *rng.pick(&[16usize, 100, 1000, 65536]);
             let time = *rng.pick(&times);
@@ -505,6 +523,10 @@ pub fn main(args: &Args) {
                 r.violation(&sig, what, J::obj(vec![("kind", J::s("random long sequence")), ("limit", J::u(limit as u64)), ("time", J::u(time as u64))]), vec![]);
             }
         }
+        });
+        if let Err((msg, loc)) = phase_b {
+            r.violation(&format!("C16/panic@{}", loc), format!("cache operation panicked at {} in a random long sequence: {}", loc, msg), J::Null, vec![]);
+        }
         // (c) concurrent histories
         let ncon: u64 = if thorough { 3000 } else { 240 };
         let mut c = shard as u64;
@@ -514,7 +536,9 @@ pub fn main(args: &Args) {
         }
         // (d)+(e) handler level with real sleeps, on one shard (two in thorough)
         if shard == 0 || (thorough && shard == 1) {
-            handler_level(&mut r, &work2, seed + shard as u64, thorough);
+            if let Err((msg, loc)) = hvcommon::util::catch_panic(|| handler_level(&mut r, &work2, seed + shard as u64, thorough)) {
+                r.violation(&format!("C16/panic@{}", loc), format!("cache / static handler code panicked at {} during the handler-level scenario with real sleeps: {}", loc, msg), J::Null, vec!["c16".into(), "--handler-level".into(), "1".into(), "--seed".into(), seed.to_string()]);
+            }
         }
         r.count("cache_sets", stats.0);
         r.count("cache_gets", stats.1);
